@@ -31,12 +31,12 @@ func (m *Manager) DAIncluderLoop(ctx context.Context, errCh chan<- error) {
 			if daIncluded {
 				m.logger.Debug("both header and data are DA-included, advancing height: ", nextHeight)
 				if err := m.SetRollkitHeightToDAHeight(ctx, nextHeight); err != nil {
-					errCh <- fmt.Errorf("failed to set rollkit height to DA height: %w", err)
+					m.reportLoopError(ctx, errCh, fmt.Errorf("failed to set rollkit height to DA height: %w", err))
 					return
 				}
 				// Both header and data are DA-included, so we can advance the height
 				if err := m.incrementDAIncludedHeight(ctx); err != nil {
-					errCh <- fmt.Errorf("error while incrementing DA included height: %w", err)
+					m.reportLoopError(ctx, errCh, fmt.Errorf("error while incrementing DA included height: %w", err))
 					return
 				}
 
@@ -45,6 +45,20 @@ func (m *Manager) DAIncluderLoop(ctx context.Context, errCh chan<- error) {
 				// Stop at the first block that is not DA-included
 				break
 			}
+		}
+	}
+}
+
+// reportLoopError hands an unrecoverable error of a background loop to the node. While the node is stopping nobody
+// reads the channel any more (it holds one error at most): a loop must not wait there for ever, its error is logged.
+func (m *Manager) reportLoopError(ctx context.Context, errCh chan<- error, err error) {
+	select {
+	case errCh <- err:
+	default:
+		select {
+		case errCh <- err:
+		case <-ctx.Done():
+			m.logger.Error("loop error while the node is stopping", "error", err)
 		}
 	}
 }
